@@ -333,3 +333,15 @@ func zzTruncUF(s string, w int) string { return truncateToWidth(s, w) }
 // zzIsNative: false under symbolic execution, true in the native replay (guards cross-checks of
 // harness-level models against the library).
 func zzIsNative() bool { return true }
+
+// zzTouchUnder: natively creates the regular file root/rel (when rel is a plain relative path), so
+// that a result attachment naming it passes the real existence checks; symbolically a no-op (the
+// path checks are stubs there).
+func zzTouchUnder(root, rel string) {
+	if rel == "" || filepath.IsAbs(rel) || strings.Contains(rel, "..") {
+		return
+	}
+	p := filepath.Join(root, rel)
+	os.MkdirAll(filepath.Dir(p), 0o755)
+	os.WriteFile(p, []byte("x"), 0o644)
+}
